@@ -158,3 +158,16 @@ package curve
 //@   ensures[C01,C16] scval(result) == s_of_nat(ite(ex > 0, be2int(bval(h[:n])) / pow2(ex), be2int(bval(h[:n]))))
 //@   summary scval(result) == fromhash(bval(h))
 //@ spec fn fromhash(Int) Int
+
+// MarshalBinary of the secp256k1 point and scalar types never returns an error, so hash.WriteAny cannot fail on them.
+//@ axiom forall(d, any, ((typeis(d, *Secp256k1Point) || typeis(d, *Secp256k1Scalar)) && refof(d) != 0) ==> wnofail(d))
+
+// x-only encoding (BIP-340): the 32-byte big-endian affine x coordinate, a function of the group element.
+//@ spec fn xbytes(Int) Int
+//@ func (*Secp256k1Point).XBytes
+//@   nopanic[C05]
+//@   requires p != nil
+//@   modifies nothing
+//@   allocates
+//@   ensures result != nil && len(result) == 32
+//@   summary bval(result) == xbytes(ptval(p)) && ptval(p) == old(ptval(p))
